@@ -3,6 +3,7 @@
 use crate::util::Rec;
 use crate::Env;
 
+pub mod c01;
 pub mod c02;
 pub mod c03;
 pub mod c12;
@@ -17,11 +18,14 @@ pub mod c10;
 pub mod c11;
 pub mod c13;
 pub mod c14;
+pub mod c15;
+pub mod c16;
 pub mod c17;
 pub mod c18;
 
 pub fn run(prop: &str, env: &Env) -> Option<Rec> {
     Some(match prop {
+        "C01" => c01::run(env),
         "C02" => c02::run(env),
         "C03" => c03::run(env),
         "C04" => c04::run(env),
@@ -35,6 +39,8 @@ pub fn run(prop: &str, env: &Env) -> Option<Rec> {
         "C12" => c12::run(env),
         "C13" => c13::run(env),
         "C14" => c14::run(env),
+        "C15" => c15::run(env),
+        "C16" => c16::run(env),
         "C17" => c17::run(env),
         "C18" => c18::run(env),
         _ => return None,
@@ -43,6 +49,7 @@ pub fn run(prop: &str, env: &Env) -> Option<Rec> {
 
 pub fn replay(prop: &str, env: &Env, op: &str, case: &str) -> Option<Rec> {
     Some(match prop {
+        "C01" => c01::replay(env, op, case),
         "C02" => c02::replay(env, op, case),
         "C03" => c03::replay(env, op, case),
         "C04" => c04::replay(env, op, case),
@@ -56,6 +63,8 @@ pub fn replay(prop: &str, env: &Env, op: &str, case: &str) -> Option<Rec> {
         "C12" => c12::replay(env, op, case),
         "C13" => c13::replay(env, op, case),
         "C14" => c14::replay(env, op, case),
+        "C15" => c15::replay(env, op, case),
+        "C16" => c16::replay(env, op, case),
         "C17" => c17::replay(env, op, case),
         "C18" => c18::replay(env, op, case),
         _ => return None,
